@@ -142,6 +142,20 @@ def gen_statement(rng, features, single=None):
         s2 = gen_select(rng, f2 - {'join'}, single)
         fix = lambda s: re.sub(r'^select (distinct )?.*? from', f'select {c}, a from', s, count=1)
         return f'{fix(s1)} union {rng.choice(["", "all "])}{fix(s2)}'
+    if 'union' in features and 0.10 <= k < 0.14:
+        # chains of set operations over several integrations (UNION / UNION ALL / EXCEPT are left-associative with one precedence;
+        # INTERSECT is used only with itself)
+        c = rng.choice(COLS)
+        ops = rng.choice([['union', 'union all', 'except', 'except'], ['intersect']])
+        parts = []
+        for _ in range(rng.randint(2, 3)):
+            ig, t = rng.choice(ALL_TABLES)
+            w = f' where {atom(rng, [t])}' if rng.random() < 0.4 else ''
+            parts.append(f'select {c} from {ig}.{t}{w}')
+        sql = parts[0]
+        for p_ in parts[1:]:
+            sql += f' {rng.choice(ops)} {p_}'
+        return sql
     if 'cte' in features and k < 0.16:
         s1 = gen_select(rng, features - {'join', 'order', 'limit', 'group'}, single)
         s1 = re.sub(r'^select (distinct )?.*? from', 'select * from', s1, count=1)
@@ -179,6 +193,13 @@ EDGE = [
     "select * from int1.t1 as x left join int1.u1 as y on x.a = y.a left join int2.t2 as z on z.a = x.a limit 2",
     "select * from int1.t1 left join int2.t2 on t1.a = t2.a where coalesce(t2.b, 0) = 0",
     "select * from int1.t1 left join int2.t2 on t1.a = t2.a limit 2 offset 1",
+    "select a from int1.t1 except select a from int2.t2", "select a from int1.t1 except select a from int2.t2 union select a from int3.t3",
+    "select a from int1.t1 union select a from int2.t2 except select a from int3.t3", "select a from int1.t1 intersect select a from int2.t2",
+    "select a from int1.t1 union all select a from int2.t2 except select a from int1.u1",
+    "select a from int1.t1 intersect select a from int2.t2 intersect select a from int3.t3",
+    "select a, b from int1.t1 except select a, b from int2.t2 union all select a, b from int2.u2",
+    "select b from int1.u1 except select b from int2.u2 union select b from int3.t3", "select c from int2.t2 except select c from int1.t1 intersect select c from int3.t3",
+    "select a from int1.t1 except select a from int2.t2 except select a from int3.t3",
 ]
 
 
@@ -267,8 +288,10 @@ def prepare(sql, cname, cat_kw, rng, ndb, N, plan_fn=None):
         except sqlcoq.Unsupported:
             pass
     dbs = []
-    for _ in range(ndb):
-        db = sqlcoq.gen_db(rng, ALL_TABLES, COLS)
+    # bag semantics of set operations shows only when the same row occurs several times: more, and few-valued, databases
+    for _ in range(ndb * 4 if any(w in sql.lower() for w in (' except ', ' intersect ')) else ndb):
+        setops = any(w in sql.lower() for w in (' except ', ' intersect ', ' union '))
+        db = sqlcoq.gen_db(rng, ALL_TABLES, COLS, few_values=setops and len(dbs) % 4 != 3)
         try:
             lite = sqlite_rows(strip_limit(sql) if lim != 'None' or off != 'None' else sql, db)
             lite_t = rows_term(lite, N)
